@@ -18,12 +18,9 @@ import ast
 from .model import AnalysisError, dotted, walk_own, norm
 
 # names bound to a class chosen at run time -> the repo classes they can denote
-DYNAMIC_CLASSES = {
-    'session_class': ['ElectrumX', 'LocalRPC'],
-    'sclass': ['ElectrumX'],
-    'db_class': ['LevelDB', 'RocksDB'],
-    'self.db_class': ['LevelDB', 'RocksDB'],
-}
+# class-valued attributes chosen at run time (keyed by the attribute name, a stable part of the coin API)
+CLASS_ATTRS = {'SESSIONCLS': ['ElectrumX']}
+DYNAMIC_CLASSES = {}     # kept for compatibility: local names are no longer consulted
 
 # (class, field) -> store identity.  Validated: the field is assigned from a `db_class(...)` call.
 STORE_FIELDS = {('DB', 'utxo_db'): 'UTXO', ('History', 'db'): 'HIST'}
@@ -50,6 +47,7 @@ class Resolver:
         self.field_sources = {}     # (cls, field) -> description of where it was derived
         self.conflicts = {}
         self._alias_cache = {}
+        self._class_sets = {}
         self._local_cache = {}
         self._assign_counts = {}
         self.stats = {'calls': 0, 'resolved': 0}
@@ -231,6 +229,13 @@ class Resolver:
                         pairs.append((i.optional_vars.id, i.context_expr))
             for name, v in pairs:
                 if counts.get(name, 0) != 1:
+                    # a local bound several times, every time to a class: remember all candidates
+                    if isinstance(n, ast.Assign) and name not in func.params:
+                        t = self.type_of(v, func) if not isinstance(v, ast.Name) or v.id != name else None
+                        if t and t[0] == 'cls':
+                            cs = self._class_sets.setdefault((func.key, name), [])
+                            if t[1] not in cs:
+                                cs.append(t[1])
                     continue
                 if isinstance(v, ast.Await):
                     v = v.value
@@ -250,6 +255,8 @@ class Resolver:
         if isinstance(expr, ast.Name):
             return self._type_of_name(expr.id, func, _depth)
         if isinstance(expr, ast.Attribute):
+            if expr.attr in CLASS_ATTRS:
+                return ('cls', CLASS_ATTRS[expr.attr][0])
             bt = self.type_of(expr.value, func, _depth + 1)
             return self._attr_type(bt, expr.attr)
         if isinstance(expr, ast.Call):
@@ -311,9 +318,10 @@ class Resolver:
                     pt = self.param_type(f, name)
                     if pt is not None:
                         return pt
-                dyn = DYNAMIC_CLASSES.get(name)
-                if dyn:
-                    return ('cls', dyn[0])
+                self.local_types(f)
+                cs = self._class_sets.get((f.key, name))
+                if cs:
+                    return ('cls', cs[0])
                 return None
             f = f.parent
         return self._module_lookup(func.unit, name)
@@ -465,10 +473,7 @@ class Resolver:
                     offset = 1 if (callee.cls and callee.parent is None and not callee.is_staticmethod) else 0
                     out.setdefault(callee.key, []).append((f, n, offset))
                 elif t[0] == 'cls':
-                    names = [t[1]]
-                    d = dotted(n.func)
-                    if d in DYNAMIC_CLASSES:
-                        names = DYNAMIC_CLASSES[d]
+                    names = self.class_candidates(n.func, f) or [t[1]]
                     for cn in names:
                         init = self._real_init(cn)
                         if init is not None:
@@ -476,14 +481,28 @@ class Resolver:
                 elif t[0] == 'ext' and t[1].endswith('partial') and n.args:
                     t0 = self.type_of(n.args[0], f)
                     if t0 and t0[0] == 'cls':
-                        d = dotted(n.args[0])
-                        names = DYNAMIC_CLASSES.get(d, [t0[1]])
+                        names = self.class_candidates(n.args[0], f) or [t0[1]]
                         for cn in names:
                             init = self._real_init(cn)
                             if init is not None:
                                 fake = ast.Call(func=n.args[0], args=n.args[1:], keywords=n.keywords)
                                 out.setdefault(init.key, []).append((f, fake, 1))
         return out
+
+    def class_candidates(self, expr, f):
+        '''All repo classes a class-valued expression may denote.'''
+        if isinstance(expr, ast.Name):
+            g = f
+            while g is not None:
+                self.local_types(g)
+                cs = self._class_sets.get((g.key, expr.id))
+                if cs:
+                    return list(cs)
+                g = g.parent
+        if isinstance(expr, ast.Attribute) and expr.attr in CLASS_ATTRS:
+            return list(CLASS_ATTRS[expr.attr])
+        t = self.type_of(expr, f)
+        return [t[1]] if t and t[0] == 'cls' else []
 
     def _real_init(self, clsname):
         '''First __init__ in the MRO that does not merely forward (*args, **kwargs).'''
